@@ -31,8 +31,13 @@ func main() {
 		"ElementID.Type", "ElementID.Ref", "ElementID.Version", "ElementID.ObjectID", "ElementID.FeatureID",
 		"ObjectID.Type", "ObjectID.Ref", "ObjectID.Version",
 		"Type.objectID", "Type.FeatureID",
+		// the panicking conversions (partial functions: option, None = panic)
+		"FeatureID.NodeID", "FeatureID.WayID", "FeatureID.RelationID",
+		"ElementID.NodeID", "ElementID.WayID", "ElementID.RelationID",
+		// ids of way nodes and relation members (struct receivers: one parameter per field read)
+		"WayNode.FeatureID", "WayNode.ElementID", "Member.FeatureID", "Member.ElementID",
 	}
-	text := tr.EmitFuncs(p, "generator: ids", keys)
+	text := tr.EmitFuncs2(p, "generator: ids", keys)
 	text = append(text, []byte("\n(* literals and calls of the text functions (hand-modelled in C10/Model.v) *)\n")...)
 	text = append(text, tr.EmitLiterals(p, []string{"ObjectID.String", "ElementID.String", "FeatureID.String",
 		"ParseObjectID", "ParseElementID", "ParseFeatureID"})...)
